@@ -66,6 +66,19 @@ Theorem C11_stop_post : forall c s, wf_config c = true -> reach the_prog c s -> 
 Proof. exact stop_post. Qed.
 Print Assumptions C11_stop_post.
 
+(* No thread ever gets into one of the situations the LTS models as "cannot move because the real code would raise"
+   (reading an unset flag, put()/process() without an event, task_done() below zero, start() twice, join() before
+   start(), queue.Empty outside the try): before stop() is called main can always move; the worker, once started, can
+   always move until it has finished (its get() has a time-out); every producer can always move until its script is done.
+   (After stop() is called, main's blocking in Queue.join()/Thread.join() is the subject of C11_stop_progress.) *)
+Theorem C11_no_thread_error : forall c s, wf_config c = true -> reach the_prog c s ->
+  (stop_called (sh s) = false -> exists s' l, step the_prog (threaded c) 0 s = Some (s', l)) /\
+  (started (sh s) = true -> finished (tworker s) = true \/ exists s' l, step the_prog (threaded c) 1 s = Some (s', l)) /\
+  (inited (sh s) = true -> forall i t, nth_error (tprods s) i = Some t ->
+     finished t = true \/ exists s' l, step the_prog (threaded c) (S (S i)) s = Some (s', l)).
+Proof. exact no_thread_error. Qed.
+Print Assumptions C11_no_thread_error.
+
 (* ---- non-vacuity: a concrete scenario (main triggers 1 whose callback triggers 3, producer triggers 2, stop() is
    called with a non-empty queue) satisfies every hypothesis; the run ends with all three events processed *)
 Example C11_safety_nonvacuous :
